@@ -10,6 +10,7 @@ import (
 	"encoding/json"
 	"fmt"
 	"math/rand"
+	"regexp"
 	"strings"
 	"time"
 
@@ -91,7 +92,25 @@ var c15KindSrc = map[string]string{
 	"set": "g = 1", "inc": "g = g + 1", "print": "println(g)",
 	"def1": "f = func() {g + 10}", "def2": "f = func() {g + 20}", "call": "println(f())",
 	"mdef1": "m = macro(x) {quote(unquote(x) + 100)}", "mdef2": "m = macro(x) {quote(unquote(x) + 200)}", "muse": "println(m(g))",
-	"ret": "return", "err": `error("boom")`,
+	"ret": "return", "err": `error("boom")`, "show": "println(f)", "mfun": "m = func(x) {x + 300}",
+}
+
+// c15KindSource: the grol source of an abstract statement; def1 / def2 are written in the script's form.
+func c15KindSource(kind, form string) (string, bool) {
+	switch kind {
+	case "def1":
+		if s := c15FormSrc(form, "f", "g", 10); s != "" {
+			return s, true
+		}
+		return "", false
+	case "def2":
+		if s := c15FormSrc(form, "f", "g", 20); s != "" {
+			return s, true
+		}
+		return "", false
+	}
+	s, ok := c15KindSrc[kind]
+	return s, ok
 }
 
 var c15Macros = []struct{ name, def string }{
@@ -101,16 +120,61 @@ var c15Macros = []struct{ name, def string }{
 	{"mTwice", "mTwice = macro(e) {quote([unquote(e), unquote(e)])}"},
 }
 
+// other templates for the same macro names (a redefinition between uses)
+var c15MacrosAlt = map[string]string{
+	"mAdd":   "mAdd = macro(x, y) {quote(unquote(x) * 3 + unquote(y))}",
+	"mPick":  "mPick = macro(c, t) {quote(if unquote(c) {unquote(t) + 1} else {0 - 2})}",
+	"mShow":  `mShow = macro(e) {quote(println("M2:", unquote(e)))}`,
+	"mTwice": "mTwice = macro(e) {quote([unquote(e), 0, unquote(e)])}",
+}
+
 // c15GenScript: a random script of at most maxN top-level statements (functions, loops, prints, assignments to
 // globals, macros defined before they are used, never redefined), no top-level return.
-func c15GenScript(r *rand.Rand, maxN int) (stmts []string, used map[string]bool) {
+// redef reports that the script defines a macro name again, or defines a macro named like an earlier function, after
+// a use of the name (every use still follows a definition).
+func c15GenScript(r *rand.Rand, maxN int) (stmts []string, used map[string]bool, redef bool) {
 	g := NewGen(r)
 	g.PWrong = 2
 	n := 2 + r.Intn(maxN-1)
 	defined := []int{}
 	intArg := func() string { return renderNode(g.expr(tInt, 2), precLowest, styleNormal) }
+	forms := c15FormNames()
+	var formFns []string
+	lateDone := false
 	for len(stmts) < n {
-		switch p := r.Intn(10); {
+		switch p := r.Intn(15); {
+		case p == 13 && len(defined) > 0:
+			// the same macro name with another template, between uses
+			i := defined[r.Intn(len(defined))]
+			stmts = append(stmts, c15MacrosAlt[c15Macros[i].name])
+			g.Used["macro-redefined"] = true
+			redef = true
+		case p == 14 && !lateDone:
+			// a name that is a function first and a macro later
+			lateDone = true
+			stmts = append(stmts, "mLate = func(x) {x + 7}", fmt.Sprintf("println(mLate(%s))", intArg()),
+				"mLate = macro(x) {quote(unquote(x) * 7)}", fmt.Sprintf("println(mLate(%s))", intArg()))
+			g.Used["function-then-macro"] = true
+			redef = true
+		case p >= 10 && len(formFns) < 3:
+			// a function written in one of the body forms of Chunking.tla (wherever the first macro definition falls)
+			name := g.fresh("ff")
+			formFns = append(formFns, name)
+			stmts = append(stmts, c15FormSrc(forms[r.Intn(len(forms))], name, fmt.Sprint(r.Intn(20)), r.Intn(50)))
+			g.Used["form-function"] = true
+			if r.Intn(2) == 0 {
+				break
+			}
+			fallthrough
+		case p >= 9 && len(formFns) > 0:
+			// ... observed as text and by its value
+			name := formFns[r.Intn(len(formFns))]
+			if r.Intn(3) > 0 {
+				stmts = append(stmts, fmt.Sprintf("println(%s)", name))
+				g.Used["function-text-printed"] = true
+			} else {
+				stmts = append(stmts, fmt.Sprintf("println(%s())", name))
+			}
 		case p < 2 && len(defined) < len(c15Macros):
 			i := len(defined)
 			defined = append(defined, i)
@@ -144,24 +208,35 @@ func c15GenScript(r *rand.Rand, maxN int) (stmts []string, used map[string]bool)
 	if len(stmts) > maxN {
 		stmts = stmts[:maxN]
 	}
-	return stmts, g.Used
+	return stmts, g.Used, redef
 }
 
 // ---------------------------------------------------------------------- the check
 
 type c15SplitLine struct {
 	Script []string `json:"script"`
+	Form   string   `json:"form"`
+	Kinds  []string `json:"kinds"` // node kinds Chunking.tla's FormTable claims for the form
 	Cuts   []int    `json:"cuts"`
 	Out    []int    `json:"out"`
 	G      int      `json:"g"`
 	F      int      `json:"f"`
 	Err    bool     `json:"err"`
+	// HoistSensitive(script): a macro definition follows a use of the name served by another definition / a function;
+	// Hoisted = what the whole script prints when every definition of the chunk is collected first
+	HoistSens bool  `json:"hoistsens"`
+	Hoisted   []int `json:"hoisted"`
 }
 
-func c15ChunkCfg(kinds []string, maxN, splitN int, relax string, emit bool, invs string) string {
-	q := make([]string, len(kinds))
-	for i, k := range kinds {
-		q[i] = `"` + k + `"`
+// c15ChunkCfg: relax names a dropped precondition ("errors", ...), dev the deviations of the implementation
+// ("hoist-definitions", "copy-alters-text").
+func c15ChunkCfg(kinds, forms []string, maxN, splitN int, relax string, dev []string, emit bool, invs string) string {
+	quote := func(xs []string) string {
+		q := make([]string, len(xs))
+		for i, k := range xs {
+			q[i] = `"` + k + `"`
+		}
+		return strings.Join(q, ", ")
 	}
 	rl := "{}"
 	if relax != "" {
@@ -171,8 +246,8 @@ func c15ChunkCfg(kinds []string, maxN, splitN int, relax string, emit bool, invs
 	if emit {
 		e = "TRUE"
 	}
-	return fmt.Sprintf("CONSTANTS\n Kinds = {%s}\n MaxN = %d\n SplitN = %d\n Relax = %s\n EmitOn = %s\nINIT Init\nNEXT Next\nINVARIANTS %s\n",
-		strings.Join(q, ", "), maxN, splitN, rl, e, invs)
+	return fmt.Sprintf("CONSTANTS\n Kinds = {%s}\n MaxN = %d\n SplitN = %d\n Relax = %s\n Forms = {%s}\n Dev = {%s}\n EmitOn = %s\nINIT Init\nNEXT Next\nINVARIANTS %s\n",
+		quote(kinds), maxN, splitN, rl, quote(forms), quote(dev), e, invs)
 }
 
 type c15SessCase struct {
@@ -180,11 +255,43 @@ type c15SessCase struct {
 	Cuts     []int
 	LineMode bool
 	Origin   string
+	Redef    bool // the script defines a macro after a use of the name that another definition / a function served
 	A, B     c15SessObs
+}
+
+// the finding "macro definitions are hoisted over earlier uses"
+const c15SigHoisted = "session-macro-definition-hoisted-over-earlier-use"
+
+var c15MacroDefRe = regexp.MustCompile(`^[A-Za-z_][A-Za-z_0-9]* = macro\(`)
+
+// c15ExplainedByHoisting: the whole script shows exactly what its statements show one at a time once every macro
+// definition is moved to the front (in order) - i.e. the difference between the two ways of feeding is the collection
+// of all definitions before anything is expanded, and nothing else.
+func c15ExplainedByHoisting(cs c15SessCase) bool {
+	var defs, rest []string
+	for _, st := range cs.Stmts {
+		if c15MacroDefRe.MatchString(st) {
+			defs = append(defs, st)
+		} else {
+			rest = append(rest, st)
+		}
+	}
+	if len(defs) == 0 {
+		return false
+	}
+	h := append(defs, rest...)
+	cuts := make([]int, len(h))
+	for i := range cuts {
+		cuts[i] = i + 1
+	}
+	a := c15RunInputs(c15Chunks(h, cuts), true)
+	return !a.Err && !cs.A.Err && !cs.B.Err && a.Out == cs.B.Out && a.Globals == cs.B.Globals
 }
 
 func c15SessionSignature(cs c15SessCase) string {
 	switch {
+	case cs.Redef && c15ExplainedByHoisting(cs):
+		return c15SigHoisted
 	case cs.A.Panicked:
 		return "session-chunked-panic"
 	case cs.A.Err && strings.HasPrefix(cs.A.ErrMsg, "continuation"):
@@ -200,13 +307,16 @@ func c15SessionSignature(cs c15SessCase) string {
 }
 
 func c15SessionWhat(cs c15SessCase) string {
-	return fmt.Sprintf("script %q split at %v (chunks in %s mode): chunked out=%q err=%v %q globals=%q | whole out=%q globals=%q",
+	return fmt.Sprintf("script %q split at %v (chunks in %s mode): chunked out=%q err=%v %q globals=%q | whole out=%q err=%v %q globals=%q",
 		c15Short(c15JoinStmts(cs.Stmts)), cs.Cuts, map[bool]string{true: "line", false: "file"}[cs.LineMode],
-		c15Short(cs.A.Out), cs.A.Err, cs.A.ErrMsg, c15Short(cs.A.Globals), c15Short(cs.B.Out), c15Short(cs.B.Globals))
+		c15Short(cs.A.Out), cs.A.Err, cs.A.ErrMsg, c15Short(cs.A.Globals), c15Short(cs.B.Out), cs.B.Err, cs.B.ErrMsg, c15Short(cs.B.Globals))
 }
 
-// c15Sessions runs clause 3. gen is the already finished Chunking GEN run.
-func c15Sessions(c *Ctx, emitted string) {
+// c15Sessions runs clause 3 on the finished Chunking GEN runs: emitted = all abstract statement kinds with the plain
+// function body (every split; sampled in quick), emittedForms = the function-text kinds with every body form of
+// Chunking.tla's FormTable (all replayed), emittedRedef = the kinds around one name that is a macro, another macro, a
+// function (sampled in quick, except the scripts Chunking.tla calls HoistSensitive).
+func c15Sessions(c *Ctx, emitted, emittedForms, emittedRedef string) {
 	splits := map[int][][]int{} // n -> all splits of n statements (from TLC)
 	seenSplit := map[string]bool{}
 	var cases []c15SessCase
@@ -221,62 +331,129 @@ func c15Sessions(c *Ctx, emitted string) {
 		wholeCache[key] = o
 		return o
 	}
-	addCase := func(stmts []string, cuts []int, lineMode bool, origin string, nontrivial bool) {
+	addCase := func(stmts []string, cuts []int, lineMode bool, origin string, nontrivial, redef bool) {
 		b := whole(stmts)
 		a := c15RunInputs(c15Chunks(stmts, cuts), lineMode)
-		cs := c15SessCase{Stmts: stmts, Cuts: cuts, LineMode: lineMode, Origin: origin, A: a, B: b}
+		cs := c15SessCase{Stmts: stmts, Cuts: cuts, LineMode: lineMode, Origin: origin, Redef: redef, A: a, B: b}
 		ecs = append(ecs, equivCase{ID: len(cases), A: a.Equiv(), B: b.Equiv()})
 		cases = append(cases, cs)
 		c.Case(fmt.Sprint("session:", stmts, cuts, lineMode), nontrivial && len(cuts) > 1)
 	}
+	// a script that fails when it is evaluated at once is outside the precondition - unless the same statements, fed
+	// one at a time, all succeed: then the two ways of feeding disagree on whether the script is error free at all
+	// (every statement met the state the whole script would have given it), which is a difference in what is observed.
+	wholeFailed := func(stmts []string, origin string) bool {
+		cuts := make([]int, len(stmts))
+		for i := range cuts {
+			cuts[i] = i + 1
+		}
+		a := c15RunInputs(c15Chunks(stmts, cuts), true)
+		c.Case(fmt.Sprint("session-failed-whole:", stmts), false)
+		if a.Err || a.Panicked {
+			return false
+		}
+		cs := c15SessCase{Stmts: stmts, Cuts: cuts, LineMode: true, Origin: origin, A: a, B: whole(stmts)}
+		c.Fail("session-whole-fails-chunked-does-not", c15SessionWhat(cs), map[string]any{"check": "session", "stmts": stmts, "cuts": cuts, "line_mode": true, "origin": origin})
+		return true
+	}
 
 	// 1. the model's scripts with every split, and the model's own prediction as a diagnostic
-	modelDisagree, modelCases, modelSkipped := 0, 0, 0
+	modelDisagree, modelCases, modelSkipped, wholeHoists, hoistSensCases := 0, 0, 0, 0, 0
+	var disagreeSample string
 	stride := c.Pick(3, 1)
 	nLine := 0
-	err := c15SortedLines(emitted, func(line []byte) error {
-		var g c15SplitLine
-		if err := json.Unmarshal(line, &g); err != nil {
-			return fmt.Errorf("Chunking line %q: %w", line, err)
+	formsChecked := map[string]bool{}
+	failedSeen := map[string]bool{}
+	formCases := map[string]int{}
+	refText := map[string]string{} // (form, version) -> what println(f) shows on a session that never saw a macro
+	textOf := func(form string, ver int) string {
+		key := fmt.Sprint(form, ver)
+		if t, ok := refText[key]; ok {
+			return t
 		}
-		n := len(g.Script)
-		key := fmt.Sprint(n, g.Cuts)
-		if !seenSplit[key] {
-			seenSplit[key] = true
-			splits[n] = append(splits[n], g.Cuts)
-		}
-		nLine++
-		if (nLine+int(c.Seed))%stride != 0 && n <= 4 {
-			return nil
-		}
-		stmts := make([]string, n)
-		for i, k := range g.Script {
-			src, ok := c15KindSrc[k]
-			if !ok {
-				return fmt.Errorf("unknown abstract statement %q", k)
+		def, _ := c15KindSource(fmt.Sprint("def", ver), form)
+		t := c15RunInputs([]string{c15JoinStmts([]string{def, "println(f)"})}, false).Out
+		refText[key] = t
+		return t
+	}
+	modelLine := func(everyLine bool, origin string) func(line []byte) error {
+		return func(line []byte) error {
+			var g c15SplitLine
+			if err := json.Unmarshal(line, &g); err != nil {
+				return fmt.Errorf("Chunking line %q: %w", line, err)
 			}
-			stmts[i] = src
-		}
-		w := whole(stmts)
-		if w.Err || w.Panicked {
-			modelSkipped++ // the model calls it error free, the implementation does not: outside the property's precondition
+			n := len(g.Script)
+			key := fmt.Sprint(n, g.Cuts)
+			if !seenSplit[key] {
+				seenSplit[key] = true
+				splits[n] = append(splits[n], g.Cuts)
+			}
+			if !formsChecked[g.Form] {
+				formsChecked[g.Form] = true
+				if err := c15CheckForm(g.Form, g.Kinds); err != nil {
+					return err
+				}
+			}
+			nLine++
+			if !everyLine && (nLine+int(c.Seed))%stride != 0 && n <= 4 && !g.HoistSens {
+				return nil
+			}
+			stmts := make([]string, n)
+			hasDef := false
+			for i, k := range g.Script {
+				src, ok := c15KindSource(k, g.Form)
+				if !ok {
+					return fmt.Errorf("unknown abstract statement %q (form %q)", k, g.Form)
+				}
+				stmts[i] = src
+				hasDef = hasDef || k == "def1" || k == "def2"
+			}
+			w := whole(stmts)
+			if w.Err || w.Panicked {
+				// the model calls it error free, the implementation does not: outside the property's precondition
+				if k := strings.Join(stmts, "\x00"); !failedSeen[k] {
+					failedSeen[k] = true
+					modelSkipped++
+					wholeFailed(stmts, origin)
+				}
+				return nil
+			}
+			render := func(out []int) string {
+				var want strings.Builder
+				for _, v := range out {
+					if v >= 1000 { // Text(s): the text of definition (v - 1000) / 10 of f
+						want.WriteString(textOf(g.Form, (v-1000)/10))
+						continue
+					}
+					fmt.Fprintf(&want, "%d\n", v)
+				}
+				return want.String()
+			}
+			switch want := render(g.Out); {
+			case want == w.Out:
+			case g.HoistSens && render(g.Hoisted) == w.Out:
+				wholeHoists++ // the whole script shows what Chunking.tla predicts for Dev = {"hoist-definitions"}
+			default:
+				modelDisagree++
+				if disagreeSample == "" {
+					disagreeSample = fmt.Sprintf("%q prints %q, predicted %q", stmts, w.Out, want)
+				}
+			}
+			if g.HoistSens {
+				hoistSensCases++
+			}
+			modelCases++
+			if hasDef {
+				formCases[g.Form]++
+			}
+			addCase(stmts, g.Cuts, nLine%2 == 0, origin, true, g.HoistSens)
+			if modelCases%1500 == 1 {
+				c.Sample(map[string]any{"abstract_script": g.Script, "form": g.Form, "source": stmts, "chunk_boundaries": g.Cuts, "predicted_output": g.Out})
+			}
 			return nil
 		}
-		var want strings.Builder
-		for _, v := range g.Out {
-			fmt.Fprintf(&want, "%d\n", v)
-		}
-		if want.String() != w.Out {
-			modelDisagree++
-		}
-		modelCases++
-		addCase(stmts, g.Cuts, nLine%2 == 0, "model", true)
-		if modelCases%1500 == 1 {
-			c.Sample(map[string]any{"abstract_script": g.Script, "source": stmts, "chunk_boundaries": g.Cuts, "predicted_output": g.Out})
-		}
-		return nil
-	})
-	if err != nil {
+	}
+	if err := c15SortedLines(emitted, modelLine(false, "model")); err != nil {
 		c.Infra(err)
 		return
 	}
@@ -286,8 +463,33 @@ func c15Sessions(c *Ctx, emitted string) {
 			return
 		}
 	}
+	if err := c15SortedLines(emittedForms, modelLine(true, "model-forms")); err != nil {
+		c.Infra(err)
+		return
+	}
+	if err := c15SortedLines(emittedRedef, modelLine(c.Thorough(), "model-redefinition")); err != nil {
+		c.Infra(err)
+		return
+	}
+	if hoistSensCases == 0 {
+		c.Infra(fmt.Errorf("C15: Chunking.tla emitted no script in which a macro definition follows a use served by another definition"))
+		return
+	}
+	c.Cov("model_scripts_definition_after_use", hoistSensCases)
+	c.Cov("model_scripts_whole_shows_hoisting", wholeHoists)
+	for _, fm := range c15FormNames() {
+		if formCases[fm] == 0 {
+			c.Infra(fmt.Errorf("C15: no replayed script uses the function body form %q (Chunking.tla FormTable and the harness' table differ)", fm))
+			return
+		}
+	}
 	c.Cov("model_scripts_replayed", modelCases)
 	c.Cov("model_disagreement", modelDisagree)
+	c.Cov("function_body_forms", len(formCases))
+	c.Cov("function_body_form_cases", formCases)
+	if modelDisagree > 0 {
+		c.Note("%d model scripts print something else than Chunking.tla predicts (diagnostic, whole script), e.g. %s", modelDisagree, disagreeSample)
+	}
 	if modelSkipped > 0 {
 		c.Note("%d model scripts are not error free on the implementation and were skipped", modelSkipped)
 	}
@@ -300,10 +502,13 @@ func c15Sessions(c *Ctx, emitted string) {
 	for used < nScripts && tries < nScripts*6 {
 		r := rand.New(rand.NewSource(c.Seed*7000003 + int64(tries)))
 		tries++
-		stmts, fu := c15GenScript(r, 8)
+		stmts, fu, redef := c15GenScript(r, 8)
 		w := whole(stmts)
 		if w.Err || w.Panicked || w.SaveErr != "" {
 			skippedErr++
+			if w.SaveErr == "" {
+				wholeFailed(stmts, "random")
+			}
 			continue
 		}
 		used++
@@ -323,12 +528,12 @@ func c15Sessions(c *Ctx, emitted string) {
 			}
 		}
 		for j, i := range idx {
-			addCase(stmts, all[i], (used+j)%2 == 0, "random", fu["func"] || fu["macro-use"])
+			addCase(stmts, all[i], (used+j)%2 == 0, "random", fu["func"] || fu["macro-use"] || fu["form-function"], redef)
 		}
 		if !hasFinest { // one statement at a time is what the property names
 			for _, sp := range all {
 				if len(sp) == n {
-					addCase(stmts, sp, true, "random", true)
+					addCase(stmts, sp, true, "random", true, redef)
 				}
 			}
 		}
@@ -357,27 +562,33 @@ func c15Sessions(c *Ctx, emitted string) {
 		{"mk = func(v) {func(y) {y + v}}", "a1 = mk(1)", "a2 = mk(2)", "println(a1(5), a2(5))", "println(a1(5), a2(5))"},
 		{"m2 = macro(a, b) {quote(unquote(a) - unquote(b))}", "f = func(x) {m2(x, 1)}", "println(f(5))", "println(m2(f(2), f(3)))"},
 		{`s = "x"`, `s = s + "y"`, `println(s)`, "t = [s, s]", "println(t)", `// a comment`, "println(len(t))"},
+		// function values read as text on both sides of the first macro definition (the whole script goes through the
+		// expansion pass, the chunks in front of the definition do not)
+		{"v = func(a, ..) {m = {\"n\": len(..), 1: [a, -a]}; m.n + m[1][0]}", "println(v)", "println(v(1, 2, 3))", "dbl = macro(x) {quote(unquote(x) * 2)}", "println(v)", "println(dbl(v(2)))", "w = v", "println(w == v, w)"},
+		{"func cnt(n) {if n <= 0 {return 0} else {1 + cnt(n - 1)}}", "k = x => y => z => x + y + z", "println(cnt, k)", "un = macro(c, b) {quote(if !(unquote(c)) {unquote(b)})}", "println(un(false, k(1)(2)(3)))", "println(cnt(3), cnt, k(1))"},
 	}
-	for _, stmts := range pinned {
-		w := whole(stmts)
-		if w.Err || w.Panicked {
-			c.Infra(fmt.Errorf("C15: pinned script %q is not error free: %s", stmts, w.ErrMsg))
-			return
-		}
-		for i, sp := range splits[len(stmts)] {
-			addCase(stmts, sp, i%2 == 0, "pinned", true)
-		}
+	// the same name defined again between uses (every use follows a definition): another macro template, a function
+	// that becomes a macro, a macro that becomes a function, a function whose body was expanded by the first definition
+	pinnedRedef := [][]string{
+		{"m = macro(x) {quote(unquote(x) + 1)}", "println(m(1))", "m = macro(x) {quote(unquote(x) + 100)}", "println(m(1))"},
+		{"t = func(x) {x + 3}", "println(t(1))", "t = macro(x) {quote(unquote(x) * 30)}", "println(t(1))", "println(t)"},
+		{"u = macro(x) {quote(unquote(x) * 5)}", "println(u(2))", "u = func(x) {x - 1}", "println(u(2))", "println(u)"},
+		{"w = macro(x) {quote(unquote(x) + 1)}", "h = func(y) {w(y)}", "println(h(1), h)", "w = macro(x) {quote(unquote(x) + 2)}", "println(h(1), h)", "k = func(y) {w(y)}", "println(k(1), k)"},
 	}
-
-	// boundary of the statement (no verdict): a macro REDEFINED after a use. Every use is preceded by a definition, but
-	// the whole script hoists the second definition in front of the first use. Chunking.tla reads "macros defined before
-	// use" as "the definition in force at a use precedes it" (NoRedefAfterUse) and shows the counterexample when that is
-	// relaxed; what the implementation does is recorded here.
-	{
-		stmts := []string{"m = macro(x) {quote(unquote(x) + 1)}", "println(m(1))", "m = macro(x) {quote(unquote(x) + 2)}", "println(m(1))"}
-		w := whole(stmts)
-		a := c15RunInputs(c15Chunks(stmts, []int{1, 2, 3, 4}), true)
-		c.Cov("boundary_macro_redefined_after_use", fmt.Sprintf("whole prints %q, one statement at a time prints %q (outside the precondition as modelled; not judged)", w.Out, a.Out))
+	for pi, list := range [][][]string{pinned, pinnedRedef} {
+		for _, stmts := range list {
+			w := whole(stmts)
+			if w.Err || w.Panicked {
+				if wholeFailed(stmts, "pinned") {
+					continue
+				}
+				c.Infra(fmt.Errorf("C15: pinned script %q is not error free: %s", stmts, w.ErrMsg))
+				return
+			}
+			for i, sp := range splits[len(stmts)] {
+				addCase(stmts, sp, i%2 == 0, "pinned", true, pi == 1)
+			}
+		}
 	}
 
 	// 4. verdicts by Equiv_Trace.tla; a perturbed observation must be rejected (binding self-test)
